@@ -6,15 +6,16 @@ import (
 	"google.golang.org/protobuf/internal/strs"
 )
 
-// Signatures of the collisions that are known to exist on the unchanged tree (known-findings.txt).
-// Each is a conjunction of concrete predicates on the schema and on the names protogen assigned to it;
-// a duplicate declaration that satisfies none of them is reported unclassified (a VIOLATION).
+// Signatures of the collisions that exist on the unchanged tree (known-findings.txt).  Each is a
+// conjunction of concrete predicates on the schema, on the names protogen assigned to it and on the
+// identifier that is declared twice; a duplicate declaration that satisfies none of them is reported
+// unclassified and is a VIOLATION.
 const (
-	// DESIGN.md finding 6: two fields share a camelCase, one gets "_<number>" appended by
-	// resolveCamelCaseConflicts and thereby takes the camelCase of a third field.
+	// DESIGN.md finding 6: two fields share a camelCase, resolveCamelCaseConflicts appends "_<number>" and
+	// thereby gives one of them the camelCase of a third field.
 	sigOpaqueSuffix = "opaque-camelcase-suffix-collision"
-	// DESIGN.md finding 7: a oneof wrapper type renamed with "_" (because it met a nested message/enum)
-	// meets the wrapper type of another member.
+	// DESIGN.md finding 7: a oneof wrapper type renamed with "_" (because it met a nested message/enum, or
+	// because its field was renamed) meets the wrapper type of another member.
 	sigWrapper = "oneof-wrapper-underscore-collision"
 	// open API: the method Get<Oneof> generated for a oneof is not reserved by makeNameUnique(name, false)
 	// ("this assumes that a getter method is not generated for oneofs. This is incorrect", protogen.go).
@@ -22,9 +23,11 @@ const (
 	// open API: makeNameUnique(name, false) executes usedNames["Get"+name] = false and thereby releases a
 	// name that an earlier field or oneof holds; a later oneof or field is given that same Go name.
 	sigOneofRelease = "oneof-releases-get-name"
-	// opaque/hybrid API: resolveCamelCaseConflicts looks at fields only; a oneof whose camelCase equals the
+	// opaque API: resolveCamelCaseConflicts looks at fields only; a oneof whose camelCase equals the
 	// camelCase of a field or of another oneof gets the same Has/Clear/Which method names.
 	sigOneofCamel = "opaque-oneof-camelcase-collision"
+	// open API: ProtoReflect is a method of every generated message but is missing from usedNames.
+	sigProtoReflect = "protoreflect-not-reserved"
 )
 
 func count[T any](xs []T, p func(T) bool) int {
@@ -37,12 +40,23 @@ func count[T any](xs []T, p func(T) bool) int {
 	return n
 }
 
-// goNameDup reports whether name n is the Go name of two struct members (fields or oneofs), or whether
-// two fields share a Go name: the state that only the "release" defect can produce.
-func goNameDup(ns *Names, n string) bool {
-	k := count(ns.Fields, func(f FieldNames) bool { return f.GoName == n }) +
-		count(ns.Oneofs, func(o OneofNames) bool { return o.GoName == n })
-	return k >= 2
+// dupGoNames returns the Go names carried by two struct members (fields or oneofs): the state that only
+// the "release" defect can produce.
+func dupGoNames(ns *Names) []string {
+	cnt := map[string]int{}
+	for _, f := range ns.Fields {
+		cnt[f.GoName]++
+	}
+	for _, o := range ns.Oneofs {
+		cnt[o.GoName]++
+	}
+	var out []string
+	for n, k := range cnt {
+		if k >= 2 {
+			out = append(out, n)
+		}
+	}
+	return out
 }
 
 func wasSuffixed(m *MsgSpec, i int, camel string) bool {
@@ -53,75 +67,92 @@ func wasSuffixed(m *MsgSpec, i int, camel string) bool {
 	return camel != c
 }
 
+func lowerFirst(s string) string {
+	if s == "" {
+		return s
+	}
+	return strings.ToLower(s[:1]) + s[1:]
+}
+
 // classify explains one duplicate declaration, or returns "".
 func classify(m *MsgSpec, ns *Names, d Dup) string {
-	// package scope, or the member list of a wrapper struct: two oneof members were given the same wrapper type
-	w := d.Name
-	if d.Scope != "" && d.Scope != ns.MsgIdent && d.Scope != ns.MsgIdent+"_builder" {
-		w = d.Scope
+	// (release) two struct members were given one Go name, and the duplicate identifier is built from it
+	for _, g := range dupGoNames(ns) {
+		if strings.Contains(d.Name, g) || strings.Contains(d.Scope, g) {
+			// the release needs a oneof whose "Get"+name was held by somebody
+			for _, o := range ns.Oneofs {
+				held := count(ns.Fields, func(f FieldNames) bool { return f.GoName == "Get"+o.GoName }) +
+					count(ns.Oneofs, func(p OneofNames) bool { return p.GoName == "Get"+o.GoName })
+				if held > 0 {
+					return sigOneofRelease
+				}
+			}
+		}
 	}
-	if d.Scope != ns.MsgIdent && d.Scope != ns.MsgIdent+"_builder" {
-		// in the opaque API the wrapper types are unexported: first letter in lower case
-		same := func(f FieldNames) bool {
-			return f.Wrapper == w || (len(f.Wrapper) > 0 && strings.ToLower(f.Wrapper[:1])+f.Wrapper[1:] == w)
+	inMsg := d.Scope == ns.MsgIdent
+	inBuilder := d.Scope == ns.MsgIdent+"_builder"
+	if !inMsg && !inBuilder {
+		// package scope, or the member list of a wrapper struct: two real oneof members have one wrapper type
+		w := d.Name
+		if d.Scope != "" {
+			w = d.Scope
 		}
 		var idx []int
 		for i, f := range ns.Fields {
-			if m.Fields[i].Oneof >= 0 && !m.synthetic(m.Fields[i].Oneof) && same(f) {
+			if m.Fields[i].Oneof >= 0 && !m.synthetic(m.Fields[i].Oneof) &&
+				(f.Wrapper == w || lowerFirst(f.Wrapper) == w) { // opaque API: wrapper types are unexported
 				idx = append(idx, i)
 			}
 		}
 		if len(idx) >= 2 {
-			renamed, dupGo := false, false
 			for _, i := range idx {
-				if ns.Fields[i].Wrapper != ns.MsgIdent+"_"+ns.Fields[i].GoName {
-					renamed = true
+				if ns.Fields[i].Wrapper != ns.MsgIdent+"_"+ns.Fields[i].GoName ||
+					ns.Fields[i].GoName != strs.GoCamelCase(m.Fields[i].Name) {
+					return sigWrapper // one of them carries an appended "_"
 				}
-				if goNameDup(ns, ns.Fields[i].GoName) {
-					dupGo = true
-				}
-			}
-			switch {
-			case dupGo:
-				return sigOneofRelease
-			case renamed:
-				return sigWrapper
 			}
 		}
 		return ""
 	}
-	if d.Scope == ns.MsgIdent+"_builder" {
-		// builder struct: fields are named by camelCase
-		return classifyCamel(m, ns, d.Name)
+	if inBuilder {
+		return classifyCamel(m, ns, d.Name) // builder struct: fields are named by camelCase
 	}
-	// members of the message struct
 	n := d.Name
-	if d.Level == "API_OPEN" || d.Level == "API_HYBRID" {
-		if goNameDup(ns, n) || (strings.HasPrefix(n, "Get") && goNameDup(ns, n[3:]) &&
-			count(ns.Fields, func(f FieldNames) bool { return f.GoName == n[3:] }) >= 1) {
-			return sigOneofRelease
-		}
-	}
 	if d.Level == "API_OPEN" {
-		if strings.HasPrefix(n, "Get") {
-			for oi, o := range ns.Oneofs {
-				if !m.synthetic(oi) && o.GoName == n[3:] {
-					return sigOneofGetter
+		if n == "ProtoReflect" && count(ns.Fields, func(f FieldNames) bool { return f.GoName == n })+
+			count(ns.Oneofs, func(o OneofNames) bool { return o.GoName == n }) == 1 {
+			return sigProtoReflect
+		}
+		// the duplicate disappears when the Get methods of the oneofs are left out
+		other := 0
+		for i, f := range ns.Fields {
+			if (m.Fields[i].Oneof < 0 || m.synthetic(m.Fields[i].Oneof)) && f.GoName == n {
+				other++
+			}
+			if f.Getter == n {
+				other++
+			}
+		}
+		getters := 0
+		for oi, o := range ns.Oneofs {
+			if !m.synthetic(oi) {
+				if o.GoName == n {
+					other++
+				}
+				if "Get"+o.GoName == n {
+					getters++
 				}
 			}
+		}
+		if getters >= 1 && other <= 1 {
+			return sigOneofGetter
 		}
 		return ""
 	}
 	for _, p := range []string{"Get", "Set", "Has", "Clear", "Which"} {
 		if strings.HasPrefix(n, p) {
-			c := n[len(p):]
-			if s := classifyCamel(m, ns, c); s != "" {
+			if s := classifyCamel(m, ns, n[len(p):]); s != "" {
 				return s
-			}
-			if d.Level == "API_HYBRID" && strings.HasPrefix(c, "_") {
-				if s := classifyCamel(m, ns, c[1:]); s != "" {
-					return s
-				}
 			}
 		}
 	}
@@ -136,7 +167,12 @@ func classifyCamel(m *MsgSpec, ns *Names, c string) string {
 			fi = append(fi, i)
 		}
 	}
-	no := count(ns.Oneofs, func(o OneofNames) bool { return o.Camel == c })
+	no := 0
+	for i, o := range ns.Oneofs {
+		if o.Camel == c && !m.synthetic(i) {
+			no++
+		}
+	}
 	switch {
 	case no >= 1 && no+len(fi) >= 2:
 		return sigOneofCamel
